@@ -87,11 +87,13 @@ Proof. exact lock_file_sound. Qed.
 Print Assumptions C13_rows_are_released_packages.
 
 (* current code (row flushed while the lock is believed held): one row per finished work package under EVERY
-   interleaving in which nobody times out - mutual exclusion of the lock is not needed *)
+   interleaving in which nobody times out - whatever the lock file contained at the start (a stale lock left by a killed
+   run) and with take-overs of stale locks allowed; mutual exclusion of the lock is not needed *)
 Theorem C13_row_count_partial :
-  forall sched, Forall (fun s => snd s = Step) sched ->
-  forall t, finished (phases (lrun linit sched) t) = true -> In t (file (lrun linit sched)).
-Proof. exact flush_no_loss. Qed.
+  forall l0 sched, Forall (fun s => snd s <> Timeout) sched ->
+  let st := lrun (LS l0 (fun _ => PIdle) []) sched in
+  forall t, finished (phases st t) = true -> In t (file st).
+Proof. exact flush_no_loss_from. Qed.
 Print Assumptions C13_row_count_partial.
 
 (* the unconditional clause stays refuted by the 10 s time-out: the work package finishes, its row is dropped *)
@@ -141,6 +143,10 @@ Qed.
 Example C13_example_flush :   (* the double acquisition, current code: no time-out, both rows *)
   Forall (fun s => snd s = Step) double_acquire_schedule /\ file (lrun linit double_acquire_schedule) = [0; 1].
 Proof. split; [repeat constructor | reflexivity]. Qed.
+
+Example C13_example_stale_lock :   (* stale lock of a dead owner taken over, three work packages, three rows *)
+  Forall (fun s => snd s <> Timeout) (stale_serial_schedule 3) /\ file (lrun (lstale 7) (stale_serial_schedule 3)) = [0; 1; 2].
+Proof. split; [repeat constructor; discriminate | reflexivity]. Qed.
 
 Example C13_example_triangular_hyps :   (* the hypotheses on sqrt are satisfiable on the points used: identity on {0,1} *)
   (triangular_t (fun x => x) 0 1 1 1 == 1)%Q.
